@@ -407,16 +407,20 @@ where
         + LossyFrom<I9F23>
         + LossyFrom<U0F128>,
 {
-    //wraparound
-    while angle > PI {
-        #[cfg(substrate_fixed_verif)]
-        crate::verif::tick();
-        angle -= T::lossy_from(TWO_PI);
+    //wraparound: one remainder instead of one subtraction per period
+    let two_pi = T::lossy_from(TWO_PI);
+    if angle > PI || angle < -PI {
+        angle = angle % two_pi;
     }
-    while angle < -PI {
+    if angle > PI {
         #[cfg(substrate_fixed_verif)]
         crate::verif::tick();
-        angle += T::lossy_from(TWO_PI);
+        angle -= two_pi;
+    }
+    if angle < -PI {
+        #[cfg(substrate_fixed_verif)]
+        crate::verif::tick();
+        angle += two_pi;
     }
     //mirror
     if angle > FRAC_PI_2 {
